@@ -37,11 +37,12 @@ const INTS: [&str; 8] = ["Int8", "Int16", "Int32", "Int64", "UInt8", "UInt16", "
 const STRATEGIES: [&str; 4] = ["InconsistentTypes", "TupleAsStruct", "MapAsStruct", "UnknownVariant"];
 const STRATEGY_KEY: &str = "SERDE_ARROW:strategy";
 
-const TZS: [&str; 30] = [
-    "UTC", "+02:00", "", "Europe/Zürich", "a\"b", "a\\b", "a\\", "\\", "\"", "x\ny", "tab\t", "\0", "it's", "e\u{301}",
+const TZS: [&str; 36] = [
+    "UTC", "Utc", "utc", "uTC", "+02:00", "-00:00", "Europe/Berlin", "Z", "", "Europe/Zürich", "a\"b", "a\\b", "a\\", "\\", "\"", "x\ny", "tab\t", "\0", "it's", "e\u{301}",
     "\u{200b}", "\u{feff}x", "😀", "\u{a0}", "a\", Some(\"b", "\\u{41}", "}", "{", "(", ")", ",", " ", "\r", "\u{7f}",
     "\u{e000}", "a\\\"",
 ];
+const TZ_POOL: [&str; 9] = ["UTC", "Utc", "utc", "+02:00", "Europe/Berlin", "", "America/New_York", "Europe/Zürich", "+00:00"];
 const NAMES: [&str; 14] = [
     "a", "b", "c", "", "key", "value", "element", "entries", "ä ö", "名前", "with \"quote\"", "back\\slash", "0", "😀",
 ];
@@ -55,8 +56,9 @@ fn rand_string(rng: &mut Rng, max: usize) -> String {
 fn gen_tz(rng: &mut Rng, wild: bool) -> Value {
     match rng.below(10) {
         0..=2 => Value::Null,
-        3..=4 => json!("UTC"),
-        5 => json!(*rng.pick(&["+02:00", "Europe/Zürich", "America/New_York", ""])),
+        // the pool of plausible zones, with the spellings of UTC that differ only in case (a conversion that
+        // canonicalises the zone must be seen: seeded regression c09e)
+        3..=5 => json!(*rng.pick(&TZ_POOL)),
         _ if wild || rng.chance(1, 2) => {
             if rng.bool() {
                 json!(*rng.pick(&TZS))
@@ -64,7 +66,7 @@ fn gen_tz(rng: &mut Rng, wild: bool) -> Value {
                 json!(rand_string(rng, 6))
             }
         }
-        _ => json!("UTC"),
+        _ => json!(*rng.pick(&TZ_POOL)),
     }
 }
 
@@ -496,7 +498,8 @@ fn spell_table() -> Vec<(String, String)> {
         out.push((s.into(), l.into()));
     }
     for t in ["Null", "Utf8", "LargeUtf8", "Utf8View", "Date32", "Date64", "Binary", "LargeBinary", "BinaryView", "FixedSizeBinary(16)",
-              "FixedSizeBinary(0)", "Timestamp(Second, None)", "Timestamp(Millisecond, Some(\"UTC\"))", "Timestamp(Microsecond, Some(\"\"))",
+              "FixedSizeBinary(0)", "Timestamp(Second, None)", "Timestamp(Millisecond, Some(\"UTC\"))", "Timestamp(Millisecond, Some(\"Utc\"))",
+              "Timestamp(Second, Some(\"utc\"))", "Timestamp(Nanosecond, Some(\"Europe/Berlin\"))", "Timestamp(Microsecond, Some(\"\"))",
               "Timestamp(Nanosecond, Some(\"+01:00\"))", "Time32(Second)", "Time32(Millisecond)", "Time64(Microsecond)", "Time64(Nanosecond)",
               "Duration(Second)", "Duration(Millisecond)", "Duration(Microsecond)", "Duration(Nanosecond)", "Decimal128(5, 2)",
               "Decimal128(38, -3)", "Decimal128(1,0)", "Struct"] {
@@ -550,7 +553,7 @@ pub fn gen(ctx: &Ctx) -> Vec<Value> {
         grid.push(json!({"t": "Duration", "unit": u}));
         grid.push(json!({"t": "Time32", "unit": u}));
         grid.push(json!({"t": "Time64", "unit": u}));
-        for tz in [Value::Null, json!("UTC"), json!("a\"b\\c")] {
+        for tz in [Value::Null, json!("UTC"), json!("Utc"), json!("utc"), json!("+02:00"), json!("Europe/Berlin"), json!(""), json!("a\"b\\c")] {
             grid.push(json!({"t": "Timestamp", "unit": u, "tz": tz}));
         }
     }
@@ -580,7 +583,7 @@ pub fn gen(ctx: &Ctx) -> Vec<Value> {
         let leaf = |nullable: bool, name: &str| json!({"name": name, "nullable": nullable || ty == "Null", "meta": [], "dt": dt});
         let parents: Vec<Value> = vec![
             leaf(false, "x"),
-            leaf(true, "x"),
+            leaf(true, "y"),
             json!({"name": "s", "nullable": false, "meta": [], "dt": {"t": "Struct", "fields": [leaf(true, "a"), leaf(false, "b")]}}),
             json!({"name": "l", "nullable": true, "meta": [], "dt": {"t": "List", "child": leaf(true, "element")}}),
             json!({"name": "ll", "nullable": false, "meta": [], "dt": {"t": "LargeList", "child": leaf(false, "element")}}),
@@ -621,6 +624,31 @@ pub fn gen(ctx: &Ctx) -> Vec<Value> {
             };
             id(&mut out, json!({"seed": sub, "kind": "json", "value": value, "mutation": mutation}));
         }
+    }
+    // 5. traced schemas through the JSON form: the type descriptions / covering samples / options / overwrites of the
+    // `tracety` suite (C08), plus sample collections that leave a position unseen (empty lists, `None` only)
+    let unseen = |a: Value, allow: bool| {
+        let mut o = json!({"allow_null_fields": allow, "allow_to_string": false, "coerce_numbers": false, "enums_without_data_as_strings": false,
+            "from_type_budget": 100, "guess_dates": false, "map_as_struct": true, "overwrites": [], "sequence_as_large_list": true,
+            "string_dictionary_encoding": false, "strings_as_large_utf8": true});
+        o["allow_null_fields"] = json!(allow);
+        json!({"seed": 0, "kind": "traced", "ty": Value::Null, "opts": o,
+               "samples": [{"k": "struct", "n": "R", "f": [["a", 0, a], ["b", 0, {"k": "i32", "v": 1}]]}]})
+    };
+    for allow in [true, false] {
+        id(&mut out, unseen(json!({"k": "seq", "v": []}), allow));
+        id(&mut out, unseen(json!({"k": "none"}), allow));
+        id(&mut out, unseen(json!({"k": "seq", "v": [{"k": "seq", "v": []}]}), allow));
+        id(&mut out, unseen(json!({"k": "map", "e": []}), allow));
+        id(&mut out, unseen(json!({"k": "tuple", "v": [{"k": "none"}, {"k": "str", "v": "x"}]}), allow));
+    }
+    let take = if ctx.thorough() { 6000 } else { 700 };
+    for c in crate::suites::tracety::gen(ctx).into_iter().filter(|c| matches!(c["kind"].as_str(), Some("random" | "zoo" | "mapkey"))).take(take) {
+        let mut opts = c["opts"].clone();
+        if c["overwrites"].as_array().map(|a| !a.is_empty()).unwrap_or(false) {
+            opts["overwrites"] = c["overwrites"].clone();
+        }
+        id(&mut out, json!({"seed": c["seed"], "kind": "traced", "ty": c["ty"], "opts": opts, "samples": c["samples"]}));
     }
     // API coverage: the Strategy value on its own (fixed table)
     for t in STRATEGIES {
@@ -696,6 +724,82 @@ fn esc_table(chars: &[char]) -> Value {
     json!(cs)
 }
 
+fn arrow_to_marrow(fs: &[ArrowField]) -> Result<Value, StrErr> {
+    let mut out = Vec::new();
+    for f in fs {
+        out.push(Field::try_from(f).map_err(|e| str_err(e.to_string()))?);
+    }
+    Ok(fields_json(&out))
+}
+
+fn arrow2_to_marrow(fs: &[Arrow2Field]) -> Result<Value, StrErr> {
+    let mut out = Vec::new();
+    for f in fs {
+        out.push(Field::try_from(f).map_err(|e| str_err(e.to_string()))?);
+    }
+    Ok(fields_json(&out))
+}
+
+struct OneRow<'a>(&'a [Field]);
+impl serde::Serialize for OneRow<'_> {
+    fn serialize<S: serde::Serializer>(&self, s: S) -> Result<S::Ok, S::Error> {
+        use serde::ser::{SerializeSeq, SerializeStruct};
+        struct Row<'a>(&'a [Field]);
+        impl serde::Serialize for Row<'_> {
+            fn serialize<S: serde::Serializer>(&self, s: S) -> Result<S::Ok, S::Error> {
+                let mut st = s.serialize_struct("R", self.0.len())?;
+                for f in self.0 {
+                    st.serialize_field(crate::sval::intern(&f.name, 0), &0i32)?;
+                }
+                st.end()
+            }
+        }
+        let mut seq = s.serialize_seq(Some(1))?;
+        seq.serialize_element(&Row(self.0))?;
+        seq.end()
+    }
+}
+
+/// `from_samples` / `from_type` of a record with the given top-level names, every field overwritten with the given
+/// field, into every `SchemaLike` target.  Only when the names are distinct, non-empty and free of '.'
+/// (an overwrite path is "$." + name).
+fn exec_traced(_input: &Value, fields: &[Field], case: &mut Map<String, Value>) {
+    use serde_arrow::schema::TracingOptions;
+    let mut names: Vec<&str> = fields.iter().map(|f| f.name.as_str()).collect();
+    names.sort();
+    names.dedup();
+    if fields.is_empty() || names.len() != fields.len() || fields.iter().any(|f| f.name.is_empty() || f.name.contains('.')) {
+        return;
+    }
+    let opts = || -> Result<TracingOptions, StrErr> {
+        let mut o = TracingOptions::default();
+        for f in fields {
+            o = o.overwrite(f.name.as_str(), f).map_err(|e| str_err(e.to_string()))?;
+        }
+        Ok(o)
+    };
+    let ty = json!({"t": "struct", "n": "R", "f": fields.iter().map(|f| json!([f.name, {"t": "i32"}])).collect::<Vec<_>>()});
+    let e = |e: serde_arrow::Error| str_err(e.to_string());
+    let refs_to_marrow = |a: Vec<arrow_schema::FieldRef>| arrow_to_marrow(&a.iter().map(|f| f.as_ref().clone()).collect::<Vec<_>>());
+    let mut sm: Vec<Value> = Vec::new();
+    sm.push(json!(["marrow", outcome::run(|| Ok::<_, StrErr>(fields_json(&Vec::<Field>::from_samples(OneRow(fields), opts()?).map_err(e)?)))]));
+    sm.push(json!(["schema", outcome::run(|| observe(&SerdeArrowSchema::from_samples(OneRow(fields), opts()?).map_err(e)?).map_err(str_err))]));
+    sm.push(json!(["refs", outcome::run(|| refs_to_marrow(Vec::<arrow_schema::FieldRef>::from_samples(OneRow(fields), opts()?).map_err(e)?))]));
+    sm.push(json!(["arrow", outcome::run(|| arrow_to_marrow(&Vec::<ArrowField>::from_samples(OneRow(fields), opts()?).map_err(e)?))]));
+    sm.push(json!(["arrow2", outcome::run(|| arrow2_to_marrow(&Vec::<Arrow2Field>::from_samples(OneRow(fields), opts()?).map_err(e)?))]));
+    case.insert("traced_samples".into(), Value::Array(sm));
+    use crate::suites::tracety::{with_type, DynRoot};
+    let mut tm: Vec<Value> = Vec::new();
+    with_type(&ty, || {
+        tm.push(json!(["marrow", outcome::run(|| Ok::<_, StrErr>(fields_json(&Vec::<Field>::from_type::<DynRoot>(opts()?).map_err(e)?)))]));
+        tm.push(json!(["schema", outcome::run(|| observe(&SerdeArrowSchema::from_type::<DynRoot>(opts()?).map_err(e)?).map_err(str_err))]));
+        tm.push(json!(["refs", outcome::run(|| refs_to_marrow(Vec::<arrow_schema::FieldRef>::from_type::<DynRoot>(opts()?).map_err(e)?))]));
+        tm.push(json!(["arrow", outcome::run(|| arrow_to_marrow(&Vec::<ArrowField>::from_type::<DynRoot>(opts()?).map_err(e)?))]));
+        tm.push(json!(["arrow2", outcome::run(|| arrow2_to_marrow(&Vec::<Arrow2Field>::from_type::<DynRoot>(opts()?).map_err(e)?))]));
+    });
+    case.insert("traced_type".into(), Value::Array(tm));
+}
+
 fn exec_fields(input: &Value, case: &mut Map<String, Value>) {
     let fields: Vec<Field> = input["fields"].as_array().unwrap().iter().map(field_from_json).collect();
     let mut chars = Vec::new();
@@ -714,6 +818,34 @@ fn exec_fields(input: &Value, case: &mut Map<String, Value>) {
         }
     };
     case.insert("foreign_arrow".into(), outcome::run(|| Vec::<Field>::from_value(&arrow).map(|fs| fields_json(&fs))));
+    // every other foreign field object where a schema value is accepted, and foreign objects read straight into
+    // foreign field vectors (no SerdeArrowSchema value in between that the caller sees)
+    {
+        let refs: Vec<arrow_schema::FieldRef> = arrow.iter().cloned().map(Arc::new).collect();
+        case.insert("foreign_refs".into(), outcome::run(|| Vec::<Field>::from_value(&refs).map(|fs| fields_json(&fs))));
+        case.insert(
+            "foreign_to_refs".into(),
+            outcome::run(|| {
+                let a = Vec::<arrow_schema::FieldRef>::from_value(&fields).map_err(|e| str_err(e.to_string()))?;
+                arrow_to_marrow(&a.iter().map(|f| f.as_ref().clone()).collect::<Vec<_>>())
+            }),
+        );
+        case.insert(
+            "foreign_to_arrow".into(),
+            outcome::run(|| arrow_to_marrow(&Vec::<ArrowField>::from_value(&fields).map_err(|e| str_err(e.to_string()))?)),
+        );
+        case.insert(
+            "foreign_to_arrow2".into(),
+            outcome::run(|| arrow2_to_marrow(&Vec::<Arrow2Field>::from_value(&fields).map_err(|e| str_err(e.to_string()))?)),
+        );
+        case.insert(
+            "foreign_refs_to_arrow2".into(),
+            outcome::run(|| arrow2_to_marrow(&Vec::<Arrow2Field>::from_value(&refs).map_err(|e| str_err(e.to_string()))?)),
+        );
+    }
+    // tracing straight into every schema-like target: a record type with one field per given field, every field
+    // overwritten with the given one (from_samples and from_type)
+    exec_traced(input, &fields, case);
     let mut schema: Option<SerdeArrowSchema> = None;
     case.insert(
         "arrow".into(),
@@ -742,14 +874,37 @@ fn exec_fields(input: &Value, case: &mut Map<String, Value>) {
             observe(&s).map_err(str_err)
         }),
     );
+    // the arrow2 fields read by marrow directly (not through a second SerdeArrowSchema and its arrow conversion)
+    case.insert(
+        "arrow2_direct".into(),
+        outcome::run(|| arrow2_to_marrow(&Vec::<Arrow2Field>::try_from(&schema).map_err(|e| str_err(e.to_string()))?)),
+    );
+    // there and back, compared with `PartialEq for SerdeArrowSchema` (no observation through a conversion at all):
+    // schema → arrow fields / FieldRefs / arrow2 fields → schema, and the schema read from the marrow fields as
+    // foreign objects
+    case.insert(
+        "rt_eq".into(),
+        outcome::run(|| {
+            let e = |e: serde_arrow::Error| str_err(e.to_string());
+            let via_fields = SerdeArrowSchema::try_from(&Vec::<ArrowField>::try_from(&schema).map_err(e)?[..]).map_err(e)? == schema;
+            let via_refs = SerdeArrowSchema::try_from(&Vec::<arrow_schema::FieldRef>::try_from(&schema).map_err(e)?[..]).map_err(e)? == schema;
+            let via_arrow2 = match Vec::<Arrow2Field>::try_from(&schema) {
+                Ok(a2) => json!(SerdeArrowSchema::try_from(&a2[..]).map_err(e)? == schema),
+                Err(_) => Value::Null,
+            };
+            let via_foreign = match SerdeArrowSchema::from_value(&fields) {
+                Ok(s) => json!(s == schema),
+                Err(_) => Value::Null,
+            };
+            let via_json = match serde_json::to_value(&schema).ok().and_then(|v| SerdeArrowSchema::from_value(&v).ok()) {
+                Some(s) => json!(s == schema),
+                None => Value::Null,
+            };
+            Ok::<_, StrErr>(json!({"fields": via_fields, "refs": via_refs, "arrow2": via_arrow2, "foreign": via_foreign, "json": via_json}))
+        }),
+    );
     // API coverage: the owned conversions and the plain arrow `Field` list, value traits of the schema
-    let to_marrow = |fs: &[ArrowField]| -> Result<Value, StrErr> {
-        let mut out = Vec::new();
-        for f in fs {
-            out.push(Field::try_from(f).map_err(|e| str_err(e.to_string()))?);
-        }
-        Ok(fields_json(&out))
-    };
+    let to_marrow = |fs: &[ArrowField]| -> Result<Value, StrErr> { arrow_to_marrow(fs) };
     case.insert(
         "arrow_plain".into(),
         outcome::run(|| to_marrow(&Vec::<ArrowField>::try_from(&schema).map_err(|e| str_err(e.to_string()))?)),
@@ -897,9 +1052,54 @@ fn exec_strategy(input: &Value, case: &mut Map<String, Value>) {
     }
 }
 
+/// a traced schema (`from_type::<DynRoot>` / `from_samples`) through the JSON form: the traced fields (read directly:
+/// `Vec::<marrow Field>::from_*` is the projection of the schema), what `to_value` writes, what `from_value` reads back,
+/// and `PartialEq` of the schema read back with the traced one
+fn exec_traced_case(input: &Value, case: &mut Map<String, Value>) {
+    use crate::suites::trace::build_opts;
+    use crate::suites::tracety::{with_type, DynRoot, SampleRows};
+    let e = |e: serde_arrow::Error| str_err(e.to_string());
+    let mut chars = Vec::new();
+    let mut through = |fields: Result<Vec<Field>, StrErr>, schema: Result<SerdeArrowSchema, StrErr>| -> Result<Value, StrErr> {
+        let fields = fields?;
+        let schema = schema?;
+        let fj = fields_json(&fields);
+        collect_tz_chars(&fj, &mut chars);
+        let json = serde_json::to_value(&schema).map_err(|e| str_err(e.to_string()))?;
+        let back = outcome::run(|| Vec::<Field>::from_value(&json).map(|fs| fields_json(&fs)));
+        let eq = SerdeArrowSchema::from_value(&json).map(|s| s == schema).ok();
+        let text = serde_json::to_string(&schema).ok().and_then(|t| serde_json::from_str::<SerdeArrowSchema>(&t).ok()).map(|s| s == schema);
+        Ok(json!({"fields": fj, "json": json, "back": back, "eq": eq, "text_eq": text}))
+    };
+    let opts = &input["opts"];
+    if !input["ty"].is_null() {
+        let r = with_type(&input["ty"], || {
+            outcome::run(|| {
+                through(
+                    build_opts(opts).map_err(e).and_then(|o| Vec::<Field>::from_type::<DynRoot>(o).map_err(e)),
+                    build_opts(opts).map_err(e).and_then(|o| SerdeArrowSchema::from_type::<DynRoot>(o).map_err(e)),
+                )
+            })
+        });
+        case.insert("type".into(), r);
+    }
+    let samples = input["samples"].as_array().cloned().unwrap_or_default();
+    if !samples.is_empty() {
+        let r = outcome::run(|| {
+            through(
+                build_opts(opts).map_err(e).and_then(|o| Vec::<Field>::from_samples(SampleRows(&samples), o).map_err(e)),
+                build_opts(opts).map_err(e).and_then(|o| SerdeArrowSchema::from_samples(SampleRows(&samples), o).map_err(e)),
+            )
+        });
+        case.insert("samples_out".into(), r);
+    }
+    case.insert("esc".into(), esc_table(&chars));
+}
+
 pub fn exec(input: &Value) -> Value {
     let mut case = input.as_object().cloned().unwrap_or_default();
     match input["kind"].as_str().unwrap_or("") {
+        "traced" => exec_traced_case(input, &mut case),
         "fields" => exec_fields(input, &mut case),
         "json" => exec_json(input, &mut case),
         "spell" => exec_spell(input, &mut case),
